@@ -613,10 +613,33 @@ def r3_bounds(ctx, ents, cl, krate_prefix="cascette_", discharged=DISCHARGED_R3)
     br = binread_adts(prog)
     res, req = bounds.analyse_closure(prog, cl, krate_prefix=krate_prefix)
     cnt = collections.Counter()
+    ocnt = collections.Counter()
     nd = collections.Counter()
+    ctx.rule("C02.R4", "no addition / multiplication in u8 / u16 / u32 on input-derived operands that can exceed the type's range (E-bounds value ranges)")
     for bid in sorted(res):
         a = res[bid]
         for sk in a.sinks:
+            if sk.kind == "overflow":
+                # R4: arithmetic in a NARROW unsigned type (u8/u16/u32) on input-derived operands: in a release build it wraps silently and every
+                # bound proven for the mathematical value is void; in a debug build it panics. Wide (usize/u64) additions of positions and all
+                # subtractions are not decided (their count is reported).
+                m_ = re.match(r"^(Add|Mul) in (u8|u16|u32)$", sk.what)
+                strict_o = sorted(t for t in sk.taint if strict_input(t, br))
+                if not m_ or not strict_o:
+                    ocnt["proven" if sk.proven else "not decided"] += 1
+                    continue
+                if sk.proven or getattr(sk, "delegated", None):
+                    ocnt["narrow, input-derived, proven not to wrap"] += 1
+                    ctx.ok("C02.R4", [bid, "overflow", sk.what, sk.bb], "cannot exceed the type's range", sk.loc, nontrivial=True)
+                    continue
+                ctx.saw(a.b)
+                tag = strict_o[0] if strict_o[0] == "input" else "field " + strict_o[0][6:].split("::")[-1]
+                ocnt["violations"] += 1
+                ctx.bad("C02.R4", [bid, "overflow", sk.what, tag],
+                        "%s: %s at %s on values read from the input (%s) can exceed the type's range: a release build wraps silently (a size of 256 becomes 0 - "
+                        "the loops and slices sized by it then hang or index out of range), a debug build panics" % (bid, sk.what, sk.loc, ", ".join(strict_o)[:160]),
+                        sk.loc, {"goal": [repr(g) for g in sk.goals]})
+                continue
             if getattr(sk, "delegated", None):
                 cnt["delegated to callers"] += 1
                 continue
@@ -664,6 +687,8 @@ def r3_bounds(ctx, ents, cl, krate_prefix="cascette_", discharged=DISCHARGED_R3)
     ctx.ok(rule, ["summary"], "sites scanned", None, sample={"sites": dict(cnt), "helper_preconditions": {ctx._stable(k): [repr(x) for x in v] for k, v in sorted(req.items())},
                                                            "not_decided_by_function": {ctx._stable(k): v for k, v in nd.most_common(12)}})
     ctx.info("C02.R3 E-bounds: %s; %d helper precondition set(s)" % (dict(cnt), len(req)))
+    ctx.ok("C02.R4", ["summary"], "overflow asserts scanned", None, sample={"overflow_asserts": dict(ocnt)})
+    ctx.info("C02.R4 overflow asserts: %s" % dict(ocnt))
 
 
 def run(ctx):
@@ -674,4 +699,4 @@ def run(ctx):
 
 
 from .selftest import for_families as _ff  # noqa: E402
-selftest = _ff(['taint', 'panic'])
+selftest = _ff(['taint', 'panic', 'bounds'])
